@@ -87,7 +87,7 @@ def impl_outputs(case):
     A = gen.qsm_impl(s)
     x = jnp.asarray(case["x"])
     xl = jnp.asarray(case["xl"])
-    return dict(dense=np.asarray(A.to_dense()), ax=np.asarray(A @ x), xa=np.asarray(xl @ A),
+    return dict(dense=np.asarray(A.to_dense()), ax=np.asarray(A @ x), xa=np.asarray(xl @ A), va=np.asarray(xl[0] @ A),
                 tdense=np.asarray(A.T.to_dense()), shape=tuple(A.shape), tshape=tuple(A.T.shape))
 
 
@@ -126,6 +126,7 @@ def run(chk):
         exprs.append(f"flatten (qdense K {A})")
         exprs.append(f"flatten (qmatmul K {cc} {A} {cmat(x2)})")
         exprs.append(f"flatten (qrmatmul K {r} {cmat(c['xl'])} {A})")
+        exprs.append(f"flatten (qrmatmul K 1 {cmat(c['xl'][:1])} {A})")      # a 1-D vector on the left
         exprs.append(f"flatten (qdense K (qtranspose {A}))")
         exprs.append(f"[:: (qshape {A}).1; (qshape {A}).2; (qshape (qtranspose {A})).1]")
     for gc in gcases:
@@ -143,9 +144,9 @@ def run(chk):
     hist = {}
     for c, im in zip(cases, impl):
         s = c["spec"]
-        md, max_, mxa, mtd, msh = model[k:k + 5]
-        k += 5
-        pairs = [("to_dense", md, im["dense"]), ("matmul", max_, im["ax"]), ("rmatmul", mxa, im["xa"]),
+        md, max_, mxa, mva, mtd, msh = model[k:k + 6]
+        k += 6
+        pairs = [("to_dense", md, im["dense"]), ("matmul", max_, im["ax"]), ("rmatmul", mxa, im["xa"]), ("vector @ Q", mva, im["va"]),
                  ("T.to_dense", mtd, im["tdense"]),
                  ("shape", msh, np.array([im["shape"][0], im["shape"][1], im["tshape"][0]], float))]
         for name, m_, i_ in pairs:
@@ -155,7 +156,7 @@ def run(chk):
         D = gen.den_oracle(s)
         n = s["n"]
         checks = [("to_dense", im["dense"], D), ("matmul", im["ax"], np.tensordot(D, c["x"], axes=(1, 0))),
-                  ("rmatmul", im["xa"], c["xl"] @ D), ("T.to_dense", im["tdense"], D.T)]
+                  ("rmatmul", im["xa"], c["xl"] @ D), ("vector @ Q", im["va"], c["xl"][0] @ D), ("T.to_dense", im["tdense"], D.T)]
         for name, got, want in checks:
             if got.shape != want.shape or not np.array_equal(got, want):
                 oracle_bad.append(dict(op=name, spec=gen.spec_json(s), x=c["x"].tolist(), xl=c["xl"].tolist(),
@@ -185,7 +186,7 @@ def run(chk):
         distinct.add(("General", g["n1"], g["n2"], tuple(g["idx"].tolist()), M.tobytes()))
         hist["General"] = hist.get("General", 0) + 1
 
-    chk.cov["evaluations"] = len(cases) * 5 + len(gcases) * 3
+    chk.cov["evaluations"] = len(cases) * 6 + len(gcases) * 3
     chk.cov["distinct_nontrivial"] = len(distinct)
     chk.cov["rule"] = ("cases cycle over the 7 kinds x sizes x unequal orders with integer generators in [-2,2], "
                        "rank-1/2/3 right-hand sides and left operands; rectangular cases force idx=-1 and idx=n2-1 and "
@@ -231,7 +232,7 @@ def replay(chk, rep):
         im = impl_outputs(c)
         D = gen.den_oracle(s)
         ok = np.array_equal(im["dense"], D) and np.array_equal(im["ax"], np.tensordot(D, c["x"], axes=(1, 0))) \
-            and np.array_equal(im["xa"], c["xl"] @ D) and np.array_equal(im["tdense"], D.T)
+            and np.array_equal(im["xa"], c["xl"] @ D) and np.array_equal(im["tdense"], D.T) and np.array_equal(im["va"], c["xl"][0] @ D)
         print("implementation agrees with documented formula:", ok)
         return 0 if ok else 1
     print(rep)
